@@ -417,6 +417,9 @@ func consumeStreamsBlockedFrame(b []byte) (typ streamType, max int64, n int) {
 		return 0, 0, -1
 	}
 	n += nn
+	if max > maxStreamsLimit {
+		return 0, 0, -1
+	}
 	return typ, max, n
 }
 
